@@ -160,15 +160,16 @@ def fchk (allow : Bool) (d : Obj) : Outcome :=
 
 /-! ### molekel -/
 
-/-- the double `1e-7` (exact value of the literal in the source) -/
-def tol1em7 : Rat := (944473296573929 : Rat) / 9444732965739290427392
+/-- the double `1e-4` (exact value of the literal in the source): occupations are printed with 7 decimals, so the
+count of a file the writer produced itself is off by up to `norb · 5e-8` -/
+def tolNelec : Rat := (7378697629483821 : Rat) / 73786976294838206464
 
-/-- `data.mo.occs is not None and abs(data.mo.nelec - np.round(data.mo.nelec)) > 1e-7`
+/-- `data.mo.occs is not None and abs(data.mo.nelec - np.round(data.mo.nelec)) > 1e-4`
 (`MolecularOrbitals.nelec` is `None` without occupations, else `occs.sum()`) -/
 def fractionalNelec (m : MO) : Bool :=
   match nelec m with
   | none => false
-  | some n => decide (tol1em7 < absR (n - (roundHalfEven n : Int)))
+  | some n => decide (tolNelec < absR (n - (roundHalfEven n : Int)))
 
 /-- `molekel.prepare_dump`: the Molden body with the electron-count guard after the generalized-orbitals guard -/
 def molekel (allow : Bool) (d : Obj) : Outcome :=
@@ -224,7 +225,7 @@ def moBasis (name : String) (cartOnly : Bool) (nelecGuard : Bool := false) : Lis
    "0|if data.obasis is None:", "1|raise PrepareDumpError",
    "0|if data.mo.kind == 'generalized':", "1|raise PrepareDumpError"] ++
   (if nelecGuard then
-    ["0|if data.mo.occs is not None and abs(data.mo.nelec - np.round(data.mo.nelec)) > 1e-07:", "1|raise PrepareDumpError"]
+    ["0|if data.mo.occs is not None and abs(data.mo.nelec - np.round(data.mo.nelec)) > 0.0001:", "1|raise PrepareDumpError"]
    else []) ++
   (if cartOnly then
     ["0|for shell in data.obasis.shells:", "1|if any((kind != 'c' for kind in shell.kinds)):", "2|raise PrepareDumpError"]
